@@ -13,6 +13,7 @@ static UTF_8_INIT: Encoding = Encoding { _opaque: 0 };
 pub static UTF_8: &'static Encoding = &UTF_8_INIT;
 impl Encoding {
     pub fn decode<'a>(&'static self, _bytes: &'a [u8]) -> (Cow<'a, str>, &'static Encoding, bool) { unimplemented!() }
+    pub fn decode_without_bom_handling<'a>(&'static self, _bytes: &'a [u8]) -> (Cow<'a, str>, bool) { unimplemented!() }
     pub fn is_single_byte(&'static self) -> bool { unimplemented!() }
 }
 
@@ -193,8 +194,11 @@ proof fn lemma_flat_len(f: Seq<Seq<u8>>)
 // =====================================================================================================
 // A-enc: the character decoder (encoding_rs, outside the verifier)
 // =====================================================================================================
-// TRUSTED: A-enc. `decode(e, bytes)` is the text `encoding_rs::Encoding::decode(bytes).0` of the workbook's code page `e`.
+// TRUSTED: A-enc. `decode(e, bytes)` is the text `encoding_rs::Encoding::decode_without_bom_handling(bytes).0` of the workbook's
+// code page `e` (malformed sequences replaced by U+FFFD; no byte order mark sniffing)
 pub uninterp spec fn decode(e: XlsEncoding, bytes: Seq<u8>) -> Seq<char>;
+// TRUSTED: A-enc. `decode_bom(e, bytes)` is the text `encoding_rs::Encoding::decode(bytes).0` (with BOM sniffing), used by decode_all only
+pub uninterp spec fn decode_bom(e: XlsEncoding, bytes: Seq<u8>) -> Seq<char>;
 // TRUSTED: A-enc. true when the code page is neither UTF-8 nor single-byte (then strings without flag byte are treated as compressed 16-bit)
 pub uninterp spec fn enc_default_wide(e: XlsEncoding) -> bool;
 
@@ -236,12 +240,12 @@ pub open spec fn dt_bytes(eff: Option<bool>, stream: Seq<u8>, len: int) -> Seq<u
         r.1 == dt_ub(eff_hb(*self, high_byte), stream@.len() as int, len as int),
         final(s)@ == old(s)@ + decode(*self, dt_bytes(eff_hb(*self, high_byte), stream@, len as int)),
 //@@ end
-// TRUSTED: A-enc: `decode_all` is the foreign decoder applied to the whole slice (this is the definition of `decode`)
+// TRUSTED: A-enc: `decode_all` is the foreign BOM-sniffing decoder applied to the whole slice (this is the definition of `decode_bom`)
 //@@ fn src/cfb.rs XlsEncoding::decode_all props=C19 ret=r external_body
 //@@ sig
     ensures
         //# C19.decode_all
-        r@ == decode(*self, stream@),
+        r@ == decode_bom(*self, stream@),
 //@@ end
 //@@ endimpl
 
@@ -737,10 +741,12 @@ use super::super::*;
         //# C19.sst_index
         sst_spec(*encoding, frags(*old(r))) is Some ==> res is Ok && res->Ok_0@.len() == sst_count(old(r).data@)
             && forall|i: int| 0 <= i < res->Ok_0@.len() ==> (#[trigger] res->Ok_0@[i])@ == sst_spec(*encoding, frags(*old(r)))->Some_0[i],
+        //# C06.sst_negative_count_rejected
+        old(r).data@.len() >= 8 && sst_count(old(r).data@) < 0 ==> res is Err,
         //# C12.sst_err_iff_malformed
-        // apart from the inputs on which the real code panics (negative count, header cut off: C06 findings), a table is rejected iff it is malformed
-        mem_bounded(frags(*old(r))) && (old(r).data@.len() >= 8 ==> sst_count(old(r).data@) >= 0
-                && !items_truncated(*encoding, adv(frags(*old(r)), 8), sst_count(old(r).data@) as nat))
+        // apart from the inputs on which the real code panics (a string header cut off: C06 finding), a table is rejected iff it is malformed
+        mem_bounded(frags(*old(r))) && (old(r).data@.len() >= 8 && sst_count(old(r).data@) >= 0
+                ==> !items_truncated(*encoding, adv(frags(*old(r)), 8), sst_count(old(r).data@) as nat))
             ==> (res is Err <==> sst_spec(*encoding, frags(*old(r))) is None),
         //# C12.sst_frame
         same_record(*old(r), *final(r)),
@@ -750,7 +756,15 @@ use super::super::*;
     let ghost f0 = frags(*r);
     let ghost e = *encoding;
     proof { lemma_frags_head(r0); }
+//@@ before /let len = /
+    proof {
+        assert(r.data@.subrange(4, 8) =~= r0.data@.subrange(4, 8));
+        assert(0 <= le32(r0.data@.subrange(4, 8)) < 0x1_0000_0000);
+    }
 //@@ before /let mut sst = /
+    //# C12.sst_count_field
+    // the number of strings is cstUnique (bytes 4..8, a non-negative signed integer), not cstTotal
+    assert(len == sst_count(r0.data@) && sst_count(r0.data@) >= 0);
     //# C06.sst_alloc_bound
     // allocation: every string of the table occupies at least 3 bytes, so a count the record (with its continuations) can hold is at most a third of its size
     assert(3 * len <= total(f0));
@@ -763,9 +777,7 @@ use super::super::*;
         // the strings start right after cstTotal and cstUnique
         assert(r.data@ =~= r0.data@.subrange(8, r0.data@.len() as int));
         lemma_frags_adv(r0, *r, 8);
-        //# C12.sst_count_field
-        // the number of strings is cstUnique (bytes 4..8), not cstTotal
-        assert(cnt >= 0 ==> len == cnt);
+        assert(cnt >= 0 && len == cnt);
         lemma_total_unfold(f0); lemma_total_unfold(f8);
         assert(f8.drop_first() =~= f0.drop_first());
         assert(total(f8) <= total(f0));
@@ -774,16 +786,16 @@ use super::super::*;
         invariant
             e == *encoding, r0 == *old(r), f0 == frags(r0),
             same_record(r0, *r),
-            cnt >= 0 ==> len == cnt,
+            cnt >= 0 && len == cnt,
             sst@.len() == it.index@,
             it.index@ <= len,
             f0.len() >= 1 && f0[0].len() >= 8 && f8 == adv(f0, 8) && cnt == sst_count(f0[0]),
             ts.len() == sst@.len(),
-            cnt >= 0 && mem_bounded(f0) && !items_truncated(e, f8, cnt as nat) ==>
+            mem_bounded(f0) && !items_truncated(e, f8, cnt as nat) ==>
                 total(frags(*r)) <= total(f0)
                 && !items_truncated(e, frags(*r), (cnt - it.index@) as nat)
                 && (sst_items(e, frags(*r), (cnt - it.index@) as nat) is Some ==> sst_items(e, f8, cnt as nat) is Some),
-            cnt >= 0 && sst_items(e, f8, cnt as nat) is Some ==> sst_items(e, frags(*r), (cnt - it.index@) as nat) is Some
+            sst_items(e, f8, cnt as nat) is Some ==> sst_items(e, frags(*r), (cnt - it.index@) as nat) is Some
                 && sst_items(e, f8, cnt as nat)->Some_0.0 == ts + sst_items(e, frags(*r), (cnt - it.index@) as nat)->Some_0.0
                 && (forall|i: int| 0 <= i < ts.len() ==> str_view(#[trigger] sst@[i]) == ts[i]),
 //@@ before /sst\.push\(/
@@ -791,7 +803,7 @@ use super::super::*;
         let ghost si = sst@;
         let ghost ni = (cnt - it.index@) as nat;
         proof {
-            if cnt >= 0 {
+            {
                 lemma_frags_head(*r);
                 lemma_sst_items_step(e, fi, ni);
                 lemma_sst_item_total(e, fi);
@@ -801,7 +813,7 @@ use super::super::*;
 //@@ after /sst\.push\([^;]*;/
         proof {
             let ts0 = ts;
-            if cnt >= 0 && sst_items(e, f8, cnt as nat) is Some {
+            if sst_items(e, f8, cnt as nat) is Some {
                 let t = sst_item(e, fi)->Some_0.0;
                 assert(sst@ == si.push(sst@[si.len() as int]));
                 //# C19.sst_index
@@ -813,7 +825,7 @@ use super::super::*;
             } else {
                 ts = ts0.push(Seq::empty());
             }
-            if cnt >= 0 && mem_bounded(f0) && !items_truncated(e, f8, cnt as nat) {
+            if mem_bounded(f0) && !items_truncated(e, f8, cnt as nat) {
                 // the callee returned Ok on a cursor that is neither oversized nor cut inside a header: the string was well-formed
                 assert(sst_item(e, fi) is Some);
                 if sst_items(e, frags(*r), (ni - 1) as nat) is Some { lemma_sst_items_back(e, fi, ni); }
@@ -821,7 +833,7 @@ use super::super::*;
         }
 //@@ before /Ok\(sst\)/
     proof {
-        if cnt >= 0 && sst_items(e, f8, cnt as nat) is Some {
+        if sst_items(e, f8, cnt as nat) is Some {
             lemma_sst_items_len(e, f8, cnt as nat);
             assert(sst_items(e, frags(*r), 0)->Some_0.0 =~= Seq::<Seq<char>>::empty());
             assert(ts + Seq::<Seq<char>>::empty() =~= ts);
@@ -906,12 +918,9 @@ spec fn xl_text(e: XlsEncoding, r: Seq<u8>, b: Biff) -> Seq<char> {
 //@@ sig
     ensures
         //# C19.xl_string_text
-        xl_wf(*encoding, r@, biff) && r@.len() >= 4 ==> res is Ok && res->Ok_0@ == xl_text(*encoding, r@, biff),
-        //# C19.xl_string_short
-        // a complete string shorter than 4 bytes: BIFF8 empty string (cch = 0: 3 bytes), BIFF5 empty or one-character string (2 or 3 bytes)
-        xl_wf(*encoding, r@, biff) && r@.len() < 4 ==> res is Ok && res->Ok_0@ == xl_text(*encoding, r@, biff),
+        xl_wf(*encoding, r@, biff) ==> res is Ok && res->Ok_0@ == xl_text(*encoding, r@, biff),
         //# C19.xl_string_header_guard
-        r@.len() < xl_hdr(biff) ==> res is Err,
+        r@.len() < xl_hdr(biff) <==> res is Err,
 //@@ before /let _ = encoding\.decode_to/
     proof {
         //# C19.xl_string_offset
@@ -941,18 +950,17 @@ spec fn xl_text(e: XlsEncoding, r: Seq<u8>, b: Biff) -> Seq<char> {
 //@@ fn src/xls.rs read_unicode_string_no_cch props=C19 entry
 //@@ sig
     ensures
-        //# C19.nocch_text_compressed
-        buf@.len() >= 1 && buf@[0] & 0x1 == 0 && str_fits(Some(false), buf@.skip(1), *len as int)
-            ==> final(s)@ == old(s)@ + str_text(*encoding, Some(false), buf@.skip(1), *len as int),
-        //# C19.nocch_text_wide
-        buf@.len() >= 1 && buf@[0] & 0x1 != 0 && str_fits(Some(true), buf@.skip(1), *len as int)
-            ==> final(s)@ == old(s)@ + str_text(*encoding, Some(true), buf@.skip(1), *len as int),
+        //# C19.nocch_text
+        buf@.len() >= 1 && str_fits(Some(buf@[0] & 0x1 != 0), buf@.skip(1), *len as int)
+            ==> final(s)@ == old(s)@ + str_text(*encoding, Some(buf@[0] & 0x1 != 0), buf@.skip(1), *len as int),
+        //# C19.nocch_no_flag_byte
+        buf@.len() == 0 ==> final(s)@ == old(s)@,
 //@@ body
     proof {
-        if buf@.len() >= 1 && buf@[0] & 0x1 == 0 && str_fits(Some(false), buf@.skip(1), *len as int) {
-            assert(buf@.subrange(1, *len + 1) =~= buf@.skip(1).subrange(0, *len as int));
-            lemma_dt_full(*encoding, Some(false), buf@.subrange(1, *len + 1), *len as int);
-            assert(buf@.subrange(1, *len + 1).subrange(0, *len as int) =~= buf@.subrange(1, *len + 1));
+        if buf@.len() >= 1 {
+            assert(buf@.subrange(1, buf@.len() as int) =~= buf@.skip(1));
+            let hb = Some(buf@[0] & 0x1 != 0);
+            if str_fits(hb, buf@.skip(1), *len as int) { lemma_dt_full(*encoding, hb, buf@.skip(1), *len as int); }
         }
     }
 //@@ end
@@ -970,7 +978,7 @@ pub uninterp spec fn fmt_of(s: Seq<char>) -> CellFormat;
 //@@ sig
     ensures
         //# C19.format_len_guard
-        old(r).data@.len() < 4 ==> res is Err,
+        old(r).data@.len() < 5 <==> res is Err,
         //# C19.format_string
         old(r).data@.len() >= 5 && str_fits(Some(old(r).data@[4] & 0x1 != 0), old(r).data@.skip(5), le16(old(r).data@.skip(2)))
             ==> res is Ok && res->Ok_0.0 as int == le16(old(r).data@)
@@ -1002,17 +1010,12 @@ pub uninterp spec fn enc_is_utf16le(e: XlsEncoding) -> bool;
 pub open spec fn straddle(a: Seq<u8>, b: Seq<u8>) -> bool {
     a.len() >= 2 && b.len() >= 2 && 0xD8 <= a[a.len() - 1] <= 0xDB && 0xDC <= b[1] <= 0xDF
 }
-/// the bytes begin with a byte order mark pattern (UTF-16LE FF FE, UTF-16BE FE FF, UTF-8 EF BB BF), which encoding_rs `decode` sniffs
-pub open spec fn has_bom(b: Seq<u8>) -> bool {
-    (b.len() >= 2 && ((b[0] == 0xFF && b[1] == 0xFE) || (b[0] == 0xFE && b[1] == 0xFF)))
-    || (b.len() >= 3 && b[0] == 0xEF && b[1] == 0xBB && b[2] == 0xBF)
-}
 // TRUSTED: A-enc, the single assumed property of the decoder: UTF-16LE decoding (with replacement of unpaired surrogates) of a
-// concatenation is the concatenation of the decodings when the cut is at a code unit boundary, not inside a surrogate pair, and no
-// piece starts with a BOM pattern. Both exclusions are real (native demonstrations findings/xlsstr_9, xlsstr_10).
+// concatenation is the concatenation of the decodings when the cut is at a code unit boundary and not inside a surrogate pair.
+// The exclusion is real (native demonstration findings/xlsstr_9).
 #[verifier::external_body]
 pub proof fn axiom_decode_utf16_concat(e: XlsEncoding, a: Seq<u8>, b: Seq<u8>)
-    requires enc_is_utf16le(e), a.len() % 2 == 0, !straddle(a, b), !has_bom(a), !has_bom(b), !has_bom(a + b),
+    requires enc_is_utf16le(e), a.len() % 2 == 0, !straddle(a, b),
     ensures decode(e, a + b) == decode(e, a) + decode(e, b),
 {}
 proof fn witness_axiom_decode_utf16_concat(e: XlsEncoding)
@@ -1020,7 +1023,6 @@ proof fn witness_axiom_decode_utf16_concat(e: XlsEncoding)
     ensures decode(e, seq![0x41u8, 0u8] + seq![0x42u8, 0u8]) == decode(e, seq![0x41u8, 0u8]) + decode(e, seq![0x42u8, 0u8]),
 {
     let a = seq![0x41u8, 0u8]; let b = seq![0x42u8, 0u8];
-    assert((a + b)[0] == 0x41u8 && (a + b)[1] == 0u8);
     axiom_decode_utf16_concat(e, a, b);
 }
 
@@ -1034,15 +1036,14 @@ pub open spec fn segs_wide(ss: Seq<Seg>) -> Seq<u8>
 {
     if ss.len() == 0 { Seq::<u8>::empty() } else { seg_wide_bytes(ss[0]) + segs_wide(ss.drop_first()) }
 }
-/// EXPLICIT HYPOTHESIS of layout independence: no fragment boundary inside a surrogate pair, no BOM pattern at the start of a run or
-/// of the text remaining at a run boundary
+/// EXPLICIT HYPOTHESIS of layout independence: no fragment boundary inside a surrogate pair
 pub open spec fn layout_safe(ss: Seq<Seg>) -> bool
     decreases ss.len()
 {
     ss.len() == 0 || {
         let a = seg_wide_bytes(ss[0]);
         let b = segs_wide(ss.drop_first());
-        !straddle(a, b) && !has_bom(a) && !has_bom(b) && !has_bom(a + b) && layout_safe(ss.drop_first())
+        !straddle(a, b) && layout_safe(ss.drop_first())
     }
 }
 proof fn lemma_zext_len(b: Seq<u8>)
@@ -1125,18 +1126,15 @@ proof fn lemma_sst_layout_independent(e: XlsEncoding, f1: Seq<Seq<u8>>, hb1: boo
     lemma_segs_text_canonical(e, dbcs_segs(f2, cch, hb2)->Some_0.0);
 }
 
-/// 8-bit compressed runs can never trigger the two exclusions: a zero high byte is neither a surrogate nor part of a BOM pattern
+/// 8-bit compressed runs can never trigger the exclusion: a zero high byte is not a surrogate
 proof fn lemma_compressed_is_safe(a: Seq<u8>, b: Seq<u8>)
     ensures
-        !has_bom(zext(a)),
         !straddle(zext(a), b),
         !straddle(b, zext(a)),
-        a.len() > 0 ==> !has_bom(zext(a) + b),
 {
     if a.len() > 0 {
         assert(zext(a)[1] == 0u8);
         assert(zext(a)[zext(a).len() - 1] == 0u8);
-        assert((zext(a) + b)[1] == 0u8);
     }
 }
 
@@ -1290,7 +1288,7 @@ proof fn witness_layouts_read_back_identically(e: XlsEncoding)
     assert(seg_wide_bytes(gab) == gab.bytes);
     assert(segs_wide(s2) =~= gab.bytes + z);
     assert(segs_wide(s2) =~= seq![0x41u8, 0u8, 0x42u8, 0u8]);
-    assert(!has_bom(gab.bytes) && !has_bom(z) && !has_bom(gab.bytes + z) && !straddle(gab.bytes, z));
+    assert(!straddle(gab.bytes, z));
     assert(layout_safe(s2));
     // s1
     let t1 = seq![gb];
@@ -1298,7 +1296,7 @@ proof fn witness_layouts_read_back_identically(e: XlsEncoding)
     assert(t1.drop_first() =~= e0);
     assert(segs_wide(t1) =~= gb.bytes + z);
     assert(segs_wide(t1) =~= seq![0x42u8, 0u8]);
-    assert(!has_bom(gb.bytes) && !has_bom(z) && !has_bom(gb.bytes + z) && !straddle(gb.bytes, z));
+    assert(!straddle(gb.bytes, z));
     assert(layout_safe(t1));
     assert(zext(ga.bytes) =~= seq![0x41u8, 0u8]);
     assert(seg_wide_bytes(ga) =~= seq![0x41u8, 0u8]);
@@ -1306,7 +1304,7 @@ proof fn witness_layouts_read_back_identically(e: XlsEncoding)
     assert(segs_wide(s1) =~= seq![0x41u8, 0u8, 0x42u8, 0u8]);
     let a = seg_wide_bytes(ga); let b = segs_wide(t1);
     assert((a + b) =~= seq![0x41u8, 0u8, 0x42u8, 0u8]);
-    assert(!has_bom(a) && !has_bom(b) && !has_bom(a + b) && !straddle(a, b));
+    assert(!straddle(a, b));
     assert(layout_safe(s1));
     assert(segs_ok(s1) && segs_ok(s2));
     assert(s1.last() == gb && s2.last() == gab);
